@@ -101,6 +101,18 @@ CLAIMED = {
          'cyclic update chains yield None).'),
    note='Undecided: polynomial running time (shared sub-graph cost). Trusted base: ' + TRUSTED,
    design='5/C19'),
+ 'C20': dict(
+   technique='failing-edge obligations on the disallowed-redaction tests + truth-condition (DNF) of the redaction-match closure + full path enumeration of redact_assertion + result-discipline on its callers',
+   text=('Decides that self / action / hash-binding redactions reach their Failure logs, that the hash check of an assertion is skipped only for a redaction entry naming this manifest, label and instance '
+         '(otherwise a missing assertion is a Failure), that redact_assertion returns Ok only after the prefix and manifest tests and a removal, and that a failed redaction is never recorded.'),
+   note='Undecided: that output bytes no longer contain the data; exact redaction lists. Trusted base: ' + TRUSTED,
+   design='5/C20'),
+ 'C21': dict(
+   technique='guarded-effect dominance + failing-edge obligations under the update_manifest() guard; path enumeration over the parent_count switch',
+   text=('Decides that, for update manifests, a disallowed action, zero parents, more than one parent (verify_internal) and the presence of hash assertions (verify_hash_binding) each reach a manifest.update.* Failure log, '
+         'that those logs occur only under update_manifest() = true, and that the write side has a sibling rule check with Err exits.'),
+   note='Undecided: that bound content is unchanged (follows C01 undecided part). Trusted base: ' + TRUSTED,
+   design='5/C21'),
 }
 
 NA_REASONS = {
